@@ -26,6 +26,6 @@ Your task: make ONE small, realistic change to the library source (under dask/) 
 
 Deliver, in /tmp/seed/{pid}.out/ :
  1. patch.diff — output of `git -C /tmp/seed/{pid} diff` (the change only; do not commit);
- 2. demo.py — a small standalone program that demonstrates the breakage: it must exit with a non-zero status (assertion failure) when run against the changed tree and exit 0 when run against the unchanged tree (`git stash` / `git stash pop` to check both); it is run as `PYTHONPATH=<tree> /venv/bin/python demo.py`;
+ 2. demo.py — a small standalone program that demonstrates the breakage: it must exit with a non-zero status (assertion failure) when run against the changed tree and exit 0 when run against the unchanged tree (to check both: `git diff > /tmp/seed/'{pid}'.out/p.diff; git apply -R ...; run; git apply ...` — do NOT use `git stash`: the worktrees share one stash stack with other people); it is run as `PYTHONPATH=<tree> /venv/bin/python demo.py`;
  3. notes.md — 5-10 lines: what the change is, why the existing tests do not notice, and exactly what is needed for the breakage to manifest.
 Verify all three yourself (demo fails with the change, passes without; the test files pass with the change). Your final message: the one-paragraph summary of notes.md plus the exact test command you ran and its result.""")
